@@ -8,7 +8,7 @@ CLAIMS = {
     # id: (level text, level note)
     'C04': ('Bounded symbolic model checking of the real Paraxial / Surface._trace_paraxial code: every cardinal-point, pupil, '
             'marginal/chief-ray, invariant and linearity obligation is an SMT query over all radii, thicknesses and indices '
-            '(K<=3 surfaces quick, 5 thorough; stop first/middle/last; mirrors), decided unsat by z3/cvc5 against an independent '
+            '(K<=3 surfaces quick, 4 thorough; stop first/middle/last; mirrors), decided unsat by z3/cvc5 against an independent '
             'ABCD-matrix oracle; one-surface step contract extends the recurrence to any K by induction.',
             'floats modelled as exact reals + IEEE specials; bounds per harness in the evidence; oracle = 2x2 matrices on (y, nu) with index sign reversal at mirrors'),
 }
